@@ -18,8 +18,9 @@ const MODS: [u8; 7] = [0, 1, 2, 3, 0x80, 0xFE, 0xFF];
 pub fn run(env: &Env) -> Report {
     let dir = env.a.out.clone();
     let probe = write_probe(&dir);
+    let sparse = write_probe_sparse(&dir);      // absent / empty entries in every pattern (no fall-back between the planes)
     // shards: 0..8 phonetic (by code range), 8..40 fixed (numpad × 16 code ranges), 40 rank comparison
-    let nph = 8; let nfx = 32;
+    let nph = 8; let nfx = 64;
     let reps = par_map(nph + nfx + 1, |si| {
         let mut rep = Report::new("tie");
         let mut t = env.trace(&format!("tie.{}", si));
@@ -40,8 +41,8 @@ pub fn run(env: &Env) -> Report {
         } else if si < nph + nfx {
             let fi = si - nph;
             let numpad = fi % 2 == 1;
-            let part = fi / 2; let nparts = nfx / 2;
-            let lp = probe.to_str().unwrap();
+            let part = (fi / 2) % 16; let nparts = 16;
+            let lp = if fi / 32 == 0 { probe.to_str().unwrap() } else { sparse.to_str().unwrap() };
             let mut opts = Opts::none(); opts.numpad = numpad;
             let xdg = env.fresh_xdg(&format!("tie-{}", si));
             t.layout(lp, &env.tsv);
@@ -76,6 +77,6 @@ pub fn run(env: &Env) -> Report {
     let mut rep = Report::new("tie");
     for r in reps { rep.merge(r); }
     rep.exhaustive = true;
-    rep.notes.push("complete domain: 65536 key codes x 2 modifier bytes (phonetic), x 7 modifier bytes x numpad on/off (fixed, probe layout), 4x4x256x256 rank comparisons — all replayed on the Lean model".into());
+    rep.notes.push("complete domain: 65536 key codes x 2 modifier bytes (phonetic), x 7 modifier bytes x numpad on/off x 2 layouts (fixed: probe layout, sparse probe layout), 4x4x256x256 rank comparisons — all replayed on the Lean model".into());
     rep
 }
